@@ -13,6 +13,24 @@ repo_subj = {}
 for line in (git("/repo", "log", "--format=%H %s") or "").split("\n"):
     h, _, s = line.partition(" ")
     repo_subj.setdefault(s, h)
+# the same defect was repaired independently by two engineers; /repo has one of the two commits
+ALIASES = {
+    "fix: shutdown skips releaseMsg of placeholder answers": "fix: shutdown called the nil releaseMsg of placeholder answers",
+    "fix: recvPayload no longer releases clients while c.mu is held": "fix: recvPayload released imported clients while holding c.mu",
+    "fix: embargo.lift does not fulfill with a client that Shutdown has already released": "fix: embargo.lift after the embargoed client was released panicked",
+    "fix: Future.Client returned an existing proxy client without unlocking Promise.mu": "fix: Future.Client unlocks Promise.mu when it returns an existing proxy client",
+    "fix: Promise.resolve fulfils proxy clients after entering the resolved state": "fix: Promise.resolve lets pending pipelined calls proceed on the result",
+    "fix: handleCall releases the sender lock": "fix: handleCall never released the sender lock",
+    "fix: answerQueue": "fix: answerQueue hands out the right basis",
+    "fix: queueCaller": "fix: answerQueue hands out the right basis",
+}
+def alias(subj):
+    for k, v in ALIASES.items():
+        if subj and subj.startswith(k):
+            for s2, h in repo_subj.items():
+                if s2.startswith(v):
+                    return h
+    return None
 clones = ["/repo"] + sorted(glob.glob("/work/*/repo"))
 for f in [os.path.join(V, "known_findings.jsonl")] + sorted(glob.glob(os.path.join(V, "known_findings.d", "*.jsonl"))):
     out, changed = [], False
@@ -28,7 +46,7 @@ for f in [os.path.join(V, "known_findings.jsonl")] + sorted(glob.glob(os.path.jo
                 for cl in clones:
                     subj = git(cl, "log", "-1", "--format=%s", c)
                     if subj: break
-                new = repo_subj.get(subj) if subj else None
+                new = (repo_subj.get(subj) or alias(subj)) if subj else None
                 if new:
                     d["what"] = d["what"].replace(c[:7], new[:7])
                     d["commit"] = new[:7] if len(c) <= 8 else new
